@@ -43,5 +43,42 @@ def nextState (g : Governor) (sig cmd : Engine) (age : Option Nat) : Engine :=
   | .request, .stopping => { rpm := g.reshape g.idle, state := .stopping }
   | .request, .request => { rpm := g.reshape cmd.rpm, state := .request }
 
+/-! ### the translated decision table
+
+`Consts.governorTable` is produced by the translator (tools/extract.py, `extract_governor_table`) from the source text of
+`Governor::next_state` on every run: one row per match arm, in source order.  `nextStateT` gives the rows their meaning;
+`Thm.C07.C07_translation` proves that this meaning is `nextState` above, so that every theorem about `nextState` is a
+theorem about what the source says now. -/
+
+/-- the rpm expression of a row: source (0 `self.rpm_idle`, 1 `command.rpm`, 2 `signal.rpm`, 3 `self.rpm_max`), reshaped or not -/
+def rpmOf (g : Governor) (sig cmd : Engine) (src reshaped : Nat) : Option Nat :=
+  let v? : Option Nat :=
+    if src = 0 then some g.idle else if src = 1 then some cmd.rpm else if src = 2 then some sig.rpm
+    else if src = 3 then some g.max else none
+  v?.map fun v => if reshaped = 1 then g.reshape v else v
+
+/-- a pattern component: 9 is `_`, otherwise the discriminant of the state -/
+def patMatches (p : Nat) (s : EngineState) : Bool := p == 9 || p == s.code
+
+def engineOf (g : Governor) (sig cmd : Engine) (src reshaped st : Nat) : Option Engine :=
+  match rpmOf g sig cmd src reshaped, EngineState.ofCode? st with
+  | some rpm, some state => some { rpm := rpm, state := state }
+  | _, _ => none
+
+/-- one row: a guarded arm has no meaning here (the translator flags it, the translation theorem then fails) -/
+def rowResult (g : Governor) (sig cmd : Engine) (age : Option Nat) (row : List Nat) : Option Engine :=
+  match row with
+  | [_, _, guard, hasTo, ts, tr, tst, vs, vr, vst] =>
+    if guard ≠ 0 then none
+    else if hasTo = 1 && g.expired age then engineOf g sig cmd ts tr tst
+    else engineOf g sig cmd vs vr vst
+  | _ => none
+
+/-- first matching arm wins, as in a Rust `match` -/
+def nextStateT (table : List (List Nat)) (g : Governor) (sig cmd : Engine) (age : Option Nat) : Option Engine :=
+  match table.find? (fun row => patMatches (row.getD 0 7) sig.state && patMatches (row.getD 1 7) cmd.state) with
+  | some row => rowResult g sig cmd age row
+  | none => none
+
 end Governor
 end Glonax
